@@ -7,14 +7,14 @@ use crate::verif_common::harness;
 use std::sync::atomic::{AtomicBool, AtomicI64, AtomicU64, AtomicU8, Ordering::Relaxed};
 
 // ---------------------------------------------------------------- recording clock (ghost state)
-static STEPS: AtomicU8 = AtomicU8::new(0);
-static STEP_RAW: AtomicI64 = AtomicI64::new(0);
-static FREQS: AtomicU8 = AtomicU8::new(0);
-static FREQ_BITS: AtomicU64 = AtomicU64::new(0);
-static LEAPS: AtomicU8 = AtomicU8::new(0);
-static LEAP_VAL: AtomicU8 = AtomicU8::new(0);
-static ERR_UPDATES: AtomicU8 = AtomicU8::new(0);
-static EXITED: AtomicBool = AtomicBool::new(false);
+static STEPS: crate::verif_common::Ghost<AtomicU8> = crate::verif_common::Ghost::new(0x67ab11634f664a80, AtomicU8::new(0));
+static STEP_RAW: crate::verif_common::Ghost<AtomicI64> = crate::verif_common::Ghost::new(0x67cec61c12c2cf25, AtomicI64::new(0));
+static FREQS: crate::verif_common::Ghost<AtomicU8> = crate::verif_common::Ghost::new(0x67de32e4e7d879bd, AtomicU8::new(0));
+static FREQ_BITS: crate::verif_common::Ghost<AtomicU64> = crate::verif_common::Ghost::new(0x677797fcf0d6ef49, AtomicU64::new(0));
+static LEAPS: crate::verif_common::Ghost<AtomicU8> = crate::verif_common::Ghost::new(0x672514464529d6b9, AtomicU8::new(0));
+static LEAP_VAL: crate::verif_common::Ghost<AtomicU8> = crate::verif_common::Ghost::new(0x671d51c3494ec817, AtomicU8::new(0));
+static ERR_UPDATES: crate::verif_common::Ghost<AtomicU8> = crate::verif_common::Ghost::new(0x67849e943c2df703, AtomicU8::new(0));
+static EXITED: crate::verif_common::Ghost<AtomicBool> = crate::verif_common::Ghost::new(0x679bac580d75a428, AtomicBool::new(false));
 
 pub(super) fn raw(d: NtpDuration) -> i64 {
     i64::from_be_bytes((NtpTimestamp::from_bits([0; 8]) + d).to_bits())
@@ -78,9 +78,9 @@ fn exit_stub(_code: i32) -> ! {
 // NtpDuration::from_seconds as an uninterpreted (memoised) function: callers in this unit are
 // checked against "deterministic function of its argument" only; its own contract (sign,
 // saturation, integer part) is discharged under C32.
-static FS_SET: AtomicBool = AtomicBool::new(false);
-static FS_ARG: AtomicU64 = AtomicU64::new(0);
-static FS_RES: AtomicI64 = AtomicI64::new(0);
+static FS_SET: crate::verif_common::Ghost<AtomicBool> = crate::verif_common::Ghost::new(0x679bafd188e21b3e, AtomicBool::new(false));
+static FS_ARG: crate::verif_common::Ghost<AtomicU64> = crate::verif_common::Ghost::new(0x67ca9b6510765997, AtomicU64::new(0));
+static FS_RES: crate::verif_common::Ghost<AtomicI64> = crate::verif_common::Ghost::new(0x6723f019d62af931, AtomicI64::new(0));
 fn from_seconds_uf(s: f64) -> NtpDuration {
     if FS_SET.load(Relaxed) && FS_ARG.load(Relaxed) == s.to_bits() {
         return dur(FS_RES.load(Relaxed));
@@ -366,13 +366,13 @@ harness! {
 // ---------------------------------------------------------------- C03 / C04 / C37: update_clock against callee contracts
 use super::matrix::{Matrix, Vector};
 
-static SEL_N: AtomicU8 = AtomicU8::new(255);
-static SEL_ID0: AtomicU64 = AtomicU64::new(0);
-static SEL_ID1: AtomicU64 = AtomicU64::new(0);
-static SEL_RETURN_ALL: AtomicBool = AtomicBool::new(false);
-static COMB_N: AtomicU8 = AtomicU8::new(255);
-static COMB_LEAP: AtomicU8 = AtomicU8::new(255); // 255 = None, else leap_code
-static PROGRESSED: AtomicU8 = AtomicU8::new(0);
+static SEL_N: crate::verif_common::Ghost<AtomicU8> = crate::verif_common::Ghost::new(0x6756fb37257ad18d, AtomicU8::new(255));
+static SEL_ID0: crate::verif_common::Ghost<AtomicU64> = crate::verif_common::Ghost::new(0x6713703e9e93660b, AtomicU64::new(0));
+static SEL_ID1: crate::verif_common::Ghost<AtomicU64> = crate::verif_common::Ghost::new(0x673ea76243eae433, AtomicU64::new(0));
+static SEL_RETURN_ALL: crate::verif_common::Ghost<AtomicBool> = crate::verif_common::Ghost::new(0x671f359bd1204e93, AtomicBool::new(false));
+static COMB_N: crate::verif_common::Ghost<AtomicU8> = crate::verif_common::Ghost::new(0x676edd87f1574497, AtomicU8::new(255));
+static COMB_LEAP: crate::verif_common::Ghost<AtomicU8> = crate::verif_common::Ghost::new(0x67b934939d4265f6, AtomicU8::new(255)); // 255 = None, else leap_code
+static PROGRESSED: crate::verif_common::Ghost<AtomicU8> = crate::verif_common::Ghost::new(0x672ef3ae028f0eba, AtomicU8::new(0));
 
 fn leap_from(c: u8) -> NtpLeapIndicator {
     match c {
